@@ -55,7 +55,7 @@ theorem capacity_independent_bytes (ops : List Op) (hg : ∀ op ∈ ops, GrowOp 
     (run (St.init c m caux maux fill fix) ops).b0.done = (run (St.init c' m' caux maux fill fix) ops).b0.done ∧
     (run (St.init c m caux maux fill fix) ops).b0.pend = (run (St.init c' m' caux maux fill fix) ops).b0.pend := by
   have h0 : Sim (St.init c m caux maux fill fix) (St.init c' m' caux maux fill fix) :=
-    ⟨rfl, rfl, rfl, rfl, rfl, rfl, rfl, rfl, hm, hm', ⟨bounds_mk _ _ _, bounds_mk _ _ _⟩, ⟨bounds_mk _ _ _, bounds_mk _ _ _⟩⟩
+    ⟨rfl, rfl, rfl, rfl, rfl, rfl, rfl, rfl, rfl, hm, hm', ⟨bounds_mk _ _ _, bounds_mk _ _ _⟩, ⟨bounds_mk _ _ _, bounds_mk _ _ _⟩⟩
   have h := run_sim ops _ _ hg h0 d d'
   exact ⟨h.done, h.pend⟩
 
